@@ -3,6 +3,7 @@
   Statements only.
 -/
 import IcontractModel.Lemmas.Instances
+import IcontractModel.Lemmas.Capture
 import IcontractModel.Spec.Trace
 namespace Icontract
 open Res List
@@ -11,11 +12,11 @@ open Res List
 prefix of the snapshot list (the whole list when no capture fails). -/
 theorem C08_sync_captures_in_order_once (o : Oracle) (kw : Kwargs) (acc : List (String × Id)) (ss : List Snapshot) :
     capturesOf (captureOldSync o kw acc ss).trace <+: ss.map (·.id) := by
-  sorry
+  exact (captureOldSync_spec o kw acc ss).1
 
 theorem C08_async_captures_in_order_once (o : Oracle) (kw : Kwargs) (acc : List (String × Id)) (ss : List Snapshot) :
     capturesOf (captureOldAsync o kw acc ss).trace <+: ss.map (·.id) := by
-  sorry
+  exact (captureOldAsync_spec o kw acc ss).1
 
 /-- When the captures succeed, `OLD` maps every snapshot name to the object its capture returned
 (sync: return value; async: awaited value) — a function of the captures' answers only, hence
@@ -23,18 +24,21 @@ independent of whatever the body does afterwards. -/
 theorem C08_sync_old_is_captured_values (o : Oracle) (kw : Kwargs) (ss : List Snapshot) (old : List (String × Id))
     (h : (captureOldSync o kw [] ss).out = .ok old) :
     old = expectedOld false o ss ∧ capturesOf (captureOldSync o kw [] ss).trace = ss.map (·.id) := by
-  sorry
+  obtain ⟨h1, h2⟩ := (captureOldSync_spec o kw [] ss).2 old h
+  exact ⟨by simpa using h1, h2⟩
 
 theorem C08_async_old_is_captured_values (o : Oracle) (kw : Kwargs) (ss : List Snapshot) (old : List (String × Id))
     (h : (captureOldAsync o kw [] ss).out = .ok old) :
     old = expectedOld true o ss ∧ capturesOf (captureOldAsync o kw [] ss).trace = ss.map (·.id) := by
-  sorry
+  obtain ⟨h1, h2⟩ := (captureOldAsync_spec o kw [] ss).2 old h
+  exact ⟨by simpa using h1, h2⟩
 
 /-- Nothing is captured unless the callable has both postconditions and snapshots. -/
 theorem C08_no_capture_without_postconditions (ck : Checker) (o : Oracle) (call : Call)
     (h : ck.posts = [] ∨ ck.snaps = []) :
     ¬ captured (checkedSync ck o call).trace ∧ ¬ captured (checkedAsync ck o call).trace := by
-  sorry
+  rw [checkedSync_eq, checkedAsync_eq]
+  exact ⟨checkedG_no_capture (syncHooks_ok o) ck call h, checkedG_no_capture (asyncHooks_ok o) ck call h⟩
 
 /-- Position: the trace of a checked call splits into a precondition part (no capture, no body),
 a capture part (captures only) and a rest in which nothing is captured any more:
@@ -44,14 +48,16 @@ theorem C08_sync_captures_between_pre_and_body (ck : Checker) (o : Oracle) (call
       (∀ e ∈ tpre, e.isCheck = true) ∧ (∀ e ∈ tcap, e.isCapture = true) ∧
       (∀ e ∈ trest, e.isCapture = false) ∧
       (∀ e ∈ trest, e.isBody = true → ∀ e' ∈ tpre ++ tcap, e'.isBody = false) := by
-  sorry
+  rw [checkedSync_eq]
+  exact checkedG_between (syncHooks_ok o) ck call
 
 theorem C08_async_captures_between_pre_and_body (ck : Checker) (o : Oracle) (call : Call) :
     ∃ tpre tcap trest, (checkedAsync ck o call).trace = tpre ++ tcap ++ trest ∧
       (∀ e ∈ tpre, e.isCheck = true) ∧ (∀ e ∈ tcap, e.isCapture = true) ∧
       (∀ e ∈ trest, e.isCapture = false) ∧
       (∀ e ∈ trest, e.isBody = true → ∀ e' ∈ tpre ++ tcap, e'.isBody = false) := by
-  sorry
+  rw [checkedAsync_eq]
+  exact checkedG_between (asyncHooks_ok o) ck call
 
 /-- Every postcondition is evaluated against keyword arguments whose `OLD` entry is exactly the
 captured values: the conditions called after the body receive `restrict` of the post keyword
@@ -59,6 +65,8 @@ arguments, and those bind `OLD` to `old`. -/
 theorem C08_post_kwargs_bind_old (ck : Checker) (kw : Kwargs) (old : List (String × Id)) (r : Id)
     (h : (!ck.posts.isEmpty && !ck.snaps.isEmpty) = true) :
     (postKwargs ck kw old r).get? "OLD" = some (.old old) ∧ (postKwargs ck kw old r).get? "result" = some (.obj r) := by
-  sorry
+  unfold postKwargs
+  simp only [h, if_true]
+  exact ⟨by rw [Kwargs.get?_set_ne _ _ _ _ (by decide), Kwargs.get?_set_self], Kwargs.get?_set_self _ _ _⟩
 
 end Icontract
